@@ -33,7 +33,12 @@ def run_sequool(A, rewards):
     evals = {}               # id(node) -> times handed out
     t = 0
     cur_parent, cur_pos = None, 0
-    hs = sum(1.0 / i for i in range(1, len(rewards) + 1))
+    from fractions import Fraction
+    nb = getattr(A, "_budget_n", None)
+    if nb:
+        hn = sum(Fraction(1, i) for i in range(1, nb + 1))
+        if A.h_max != math.floor(Fraction(nb) / hn):
+            return 0, ["h_max = %r, but floor(n / H_n) = %d for n = %d" % (A.h_max, math.floor(Fraction(nb) / hn), nb)]
     for r in rewards:
         t += 1
         before_opened = {id(n): n.opened for n in all_nodes(P)}
@@ -188,6 +193,7 @@ def run_soo_like(A, name, rewards):
 
 def run(name, part, dom, K, params, rewards):
     A = make(name, part, dom, K, params)
+    A._budget_n = params.get("n")
     if name == "SequOOL":
         return run_sequool(A, rewards)
     return run_soo_like(A, name, rewards)
@@ -220,7 +226,7 @@ def main():
         for name in names:
             part, K = rng.choice(parts)
             dom = rng.choice([[[0, 1]], [[-2.0, 3.0], [1, 2]]])
-            n = rng.choice([12, 40, 150, 400])
+            n = rng.choice([12, 40, 150, 400, rng.randint(4, 450)])
             if name == "SequOOL":
                 params = dict(n=n)
             elif name == "SOO":
